@@ -6,10 +6,10 @@ CONSTANTS
   OffSet <- MCOff
   Q = 8
   ThinLin = 400
-  ThinIdent = 10
+  ThinIdent = 16
   ThinDov = 12
   ThinFit = 60
-  ThinDec = 24
+  ThinDec = 40
   LongN = {41, 61, 81}
   Emit = TRUE
 INVARIANTS Theorems Vector
